@@ -351,7 +351,11 @@ Fixpoint nodup_ids (l : list id) : bool :=
 Inductive wl_case :=
 | CLog (log : list entry)
 | CLogR (log : list entry)
-| CIds (cands : list id) (index disk : list id) (nalloc : nat) (returned : list id).
+| CIds (cands : list id) (index disk : list id) (nalloc : nat) (returned : list id)
+(* CLogA: the log of a unit whose writers are not modelled (the local record of a REMOTE unit,
+   which mirrors the remote node's record): only the property's relation is judged - a chain of
+   allowed transitions from (Pending, 0) *)
+| CLogA (log : list entry).
 
 Fixpoint sorted_insert (x : N) (l : list N) : list N :=
   match l with
@@ -371,6 +375,7 @@ Definition wl_check (c : wl_case) : bool :=
   match c with
   | CLog log => log_ok false log
   | CLogR log => chain (mkRec Pending 0) log && forallb (write_ok false) log
+  | CLogA log => chain (mkRec Pending 0) log && forallb entry_allowed log
   | CIds cands index disk nalloc returned =>
     let s := id_run true (S (length cands)) (fun i => nth i cands 0) (repeat (IAlloc false) nalloc)
                     (mkIds index disk 0 []) in
